@@ -6,6 +6,7 @@ package main
 
 import (
 	"fmt"
+	"os"
 	"go/token"
 	"regexp"
 	"strings"
@@ -32,6 +33,12 @@ type Obl struct {
 	// Assumed is set for obligations that are turned into assumptions on
 	// purpose (listed in the trusted base instead of being proved).
 	Tags map[string]string
+	// Extra commands / assertion appended to the query (known-finding classes)
+	Extra       []string
+	ExtraAssert string
+	// DropQuantified renders the query without quantified hypotheses
+	// (used only to search for candidate counterexamples that are then replayed).
+	DropQuantified bool
 }
 
 type namedTerm struct {
@@ -49,6 +56,7 @@ type VC struct {
 	strLits  map[string]string
 	trusted  map[string]bool // assumptions this VC depended on
 	inputs   []namedTerm
+	noBind   int
 }
 
 func newVC(fn string) *VC {
@@ -91,10 +99,19 @@ func (vc *VC) DeclareOnce(name string, s Sort) {
 var simpleRe = regexp.MustCompile(`^[A-Za-z0-9_#.]+$`)
 
 func (vc *VC) Bind(hint string, s Sort, t string) string {
+	if vc.noBind > 0 {
+		return t // inside a quantifier: bound variables may occur in t
+	}
 	if len(t) <= 24 || simpleRe.MatchString(t) {
 		return t
 	}
 	n := vc.name(hint)
+	if s.IsArr() {
+		// array-valued (heap) terms get an opaque name so that they can occur in
+		// quantifier patterns
+		vc.cmds = append(vc.cmds, fmt.Sprintf("(declare-const %s %s)", n, s), fmt.Sprintf("(assert (= %s %s))", n, t))
+		return n
+	}
 	vc.cmds = append(vc.cmds, fmt.Sprintf("(define-fun %s () %s %s)", n, s, t))
 	return n
 }
@@ -115,46 +132,217 @@ const preamble = `(declare-sort Str 0)
 (declare-fun Str_at (Str (_ BitVec 64)) (_ BitVec 8))
 (declare-const Str_empty Str)
 (assert (= (Str_len Str_empty) #x0000000000000000))
+(declare-const ZeroStrArr (Array (_ BitVec 64) Str))
+(assert (forall ((i (_ BitVec 64))) (! (= (select ZeroStrArr i) Str_empty) :pattern ((select ZeroStrArr i)))))
 (declare-fun Verify ((_ BitVec 256) (_ BitVec 64) (_ BitVec 512)) Bool)
 (declare-fun SignF ((_ BitVec 64) (_ BitVec 256)) (_ BitVec 512))
 (declare-fun BytesId ((Array (_ BitVec 64) (_ BitVec 8)) (_ BitVec 64) (_ BitVec 64)) (_ BitVec 64))
 `
 
-// Query renders the SMT-LIB text that decides the obligation: unsat means
-// discharged.
-func (o *Obl) Query(withModel bool) string {
+// useLambda: render array definitions as lambdas in candidate-counterexample
+// mode (experimental; slower than dropping them with the installed z3).
+var useLambda = os.Getenv("GOVC_LAMBDA") == "1"
+
+var tokenRe = regexp.MustCompile(`[A-Za-z_$][A-Za-z0-9_$!.]*`)
+
+// cmdName returns the symbol a declare/define command introduces.
+func cmdName(c string) string {
+	for _, p := range []string{"(declare-const ", "(declare-fun ", "(define-fun ", "(declare-sort "} {
+		if strings.HasPrefix(c, p) {
+			r := c[len(p):]
+			if i := strings.IndexAny(r, " )"); i >= 0 {
+				return r[:i]
+			}
+		}
+	}
+	return ""
+}
+
+// slice keeps the cone of influence of the seed text: definitions and
+// declarations of symbols that are (transitively) mentioned, and assertions
+// that share a symbol with what is kept. Dropping an assumption is sound for
+// proving; a dropped assumption shares no symbol with the goal.
+func sliceCmds(cmds []string, seeds ...string) []string {
+	names := map[string]bool{}
+	for _, c := range cmds {
+		if n := cmdName(c); n != "" {
+			names[n] = true
+		}
+	}
+	toks := make([][]string, len(cmds))
+	for i, c := range cmds {
+		seen := map[string]bool{}
+		for _, t := range tokenRe.FindAllString(c, -1) {
+			if names[t] && !seen[t] {
+				seen[t] = true
+				toks[i] = append(toks[i], t)
+			}
+		}
+	}
+	need := map[string]bool{}
+	for _, s := range seeds {
+		for _, t := range tokenRe.FindAllString(s, -1) {
+			if names[t] {
+				need[t] = true
+			}
+		}
+	}
+	keep := make([]bool, len(cmds))
+	for changed := true; changed; {
+		changed = false
+		for i, c := range cmds {
+			if keep[i] {
+				continue
+			}
+			n := cmdName(c)
+			hit := false
+			if n != "" {
+				hit = need[n]
+			} else {
+				for _, t := range toks[i] {
+					if need[t] {
+						hit = true
+						break
+					}
+				}
+				if len(toks[i]) == 0 && !strings.HasPrefix(c, "(assert true") {
+					hit = true // closed assertion (no symbols): keep
+				}
+			}
+			if hit {
+				keep[i] = true
+				changed = true
+				for _, t := range toks[i] {
+					need[t] = true
+				}
+			}
+		}
+	}
+	var out []string
+	for i, c := range cmds {
+		if keep[i] {
+			out = append(out, c)
+		}
+	}
+	return out
+}
+
+func pickLogic(body string) string {
+	if strings.Contains(body, "(forall ") || strings.Contains(body, "(exists ") || strings.Contains(body, "FloatingPoint") || strings.Contains(body, "(declare-sort ") {
+		return "ALL"
+	}
+	arr := strings.Contains(body, "(Array ")
+	uf := strings.Contains(body, "(declare-fun ")
+	switch {
+	case arr && uf:
+		return "QF_AUFBV"
+	case arr:
+		return "QF_ABV"
+	case uf:
+		return "QF_UFBV"
+	}
+	return "QF_BV"
+}
+
+func (o *Obl) render(withModel bool, tail string, seeds ...string) string {
+	all := append(strings.Split(strings.TrimSpace(preamble), "\n"), o.vc.cmds[:o.Prefix]...)
+	if len(o.Extra) > 0 {
+		// extra commands may mention symbols that were declared lazily after
+		// this obligation's prefix: pull their declarations in
+		have := map[string]bool{}
+		for _, c := range all {
+			if n := cmdName(c); n != "" {
+				have[n] = true
+			}
+		}
+		for _, c := range o.Extra {
+			if n := cmdName(c); n != "" {
+				have[n] = true
+			}
+		}
+		later := map[string]string{}
+		for _, c := range o.vc.cmds[o.Prefix:] {
+			if strings.HasPrefix(c, "(declare-const ") || strings.HasPrefix(c, "(declare-fun ") {
+				later[cmdName(c)] = c
+			}
+		}
+		for _, c := range append(append([]string{}, o.Extra...), tail) {
+			for _, t := range tokenRe.FindAllString(c, -1) {
+				if d, ok := later[t]; ok && !have[t] {
+					have[t] = true
+					all = append(all, d)
+				}
+			}
+		}
+	}
+	all = append(all, o.Extra...)
+	if o.DropQuantified {
+		// candidate-counterexample mode: quantified hypotheses are dropped (the
+		// model is only believed if it replays on the real code)
+		var qf []string
+		lam := map[string]bool{}
+		for _, c := range all {
+			if i := strings.Index(c, ";LAMBDA "); i >= 0 && useLambda {
+				lam[strings.SplitN(c[i+8:], "|", 2)[0]] = true
+			}
+		}
+		for _, c := range all {
+			if i := strings.Index(c, ";LAMBDA "); i >= 0 && useLambda {
+				f := strings.SplitN(c[i+8:], "|", 3)
+				qf = append(qf, fmt.Sprintf("(define-fun %s () %s (lambda ((qi (_ BitVec 64))) %s))", f[0], f[1], f[2]))
+				continue
+			}
+			if strings.HasPrefix(c, "(declare-const ") && lam[cmdName(c)] {
+				continue
+			}
+			if strings.HasPrefix(c, "(assert ") && strings.Contains(c, "(forall ") {
+				continue
+			}
+			qf = append(qf, c)
+		}
+		all = qf
+	}
+	kept := sliceCmds(all, seeds...)
+	body := strings.Join(kept, "\n") + "\n" + tail
 	var b strings.Builder
 	if withModel {
 		b.WriteString("(set-option :produce-models true)\n")
 	}
-	b.WriteString("(set-logic ALL)\n")
-	b.WriteString(preamble)
-	for _, c := range o.vc.cmds[:o.Prefix] {
-		b.WriteString(c)
-		b.WriteByte('\n')
-	}
-	fmt.Fprintf(&b, "(assert %s)\n(assert (not %s))\n(check-sat)\n", o.Guard, o.Goal)
+	b.WriteString("(set-logic " + pickLogic(body) + ")\n")
+	b.WriteString(body)
 	if withModel && len(o.Inputs) > 0 {
-		b.WriteString("(get-value (")
-		for _, in := range o.Inputs {
-			b.WriteString(in.Term)
-			b.WriteByte(' ')
+		var ins []string
+		declared := map[string]bool{}
+		for _, c := range kept {
+			declared[cmdName(c)] = true
 		}
-		b.WriteString("))\n")
+		for _, in := range o.Inputs {
+			if declared[in.Term] {
+				ins = append(ins, in.Term)
+			}
+		}
+		if len(ins) > 0 {
+			b.WriteString("(get-value (" + strings.Join(ins, " ") + "))\n")
+		}
 	}
 	return b.String()
 }
 
+// Query renders the SMT-LIB text that decides the obligation: unsat means
+// discharged.
+func (o *Obl) Query(withModel bool) string {
+	tail := fmt.Sprintf("(assert %s)\n(assert (not %s))\n%s(check-sat)\n", o.Guard, o.Goal, o.ExtraAssert)
+	return o.render(withModel, tail, o.Guard, o.Goal, o.ExtraAssert)
+}
+
 // ReachQuery: is the obligation's program point reachable under the
-// assumptions (vacuity guard)? sat = reachable.
+// assumptions (vacuity guard)? sat = reachable. Not sliced by the goal: all
+// assumptions take part.
 func (o *Obl) ReachQuery() string {
 	var b strings.Builder
-	b.WriteString("(set-logic ALL)\n")
-	b.WriteString(preamble)
-	for _, c := range o.vc.cmds[:o.Prefix] {
-		b.WriteString(c)
-		b.WriteByte('\n')
-	}
-	fmt.Fprintf(&b, "(assert %s)\n(check-sat)\n", o.Guard)
+	all := append(strings.Split(strings.TrimSpace(preamble), "\n"), o.vc.cmds[:o.Prefix]...)
+	body := strings.Join(all, "\n") + "\n" + fmt.Sprintf("(assert %s)\n(check-sat)\n", o.Guard)
+	b.WriteString("(set-logic " + pickLogic(body) + ")\n")
+	b.WriteString(body)
 	return b.String()
 }
